@@ -637,6 +637,38 @@ impl TransportService {
 
 #[cfg(feature = "verif")]
 impl TransportService {
+    /// Verification hook: [`TransportService::new`] with an event channel of the given capacity.
+    #[allow(clippy::too_many_arguments)]
+    pub(crate) fn verif_new_with_capacity(
+        local_peer_id: PeerId,
+        protocol: ProtocolName,
+        fallback_names: Vec<ProtocolName>,
+        next_substream_id: Arc<AtomicUsize>,
+        transport_handle: TransportManagerHandle,
+        keep_alive_timeout: Duration,
+        substream_keep_alive: SubstreamKeepAlive,
+        capacity: usize,
+    ) -> (Self, Sender<InnerTransportEvent>) {
+        let (tx, rx) = channel(capacity);
+        (
+            Self {
+                rx,
+                protocol,
+                local_peer_id,
+                fallback_names,
+                transport_handle,
+                next_substream_id,
+                connections: HashMap::new(),
+                keep_alive_tracker: KeepAliveTracker::new(keep_alive_timeout),
+                substream_keep_alive,
+            },
+            tx,
+        )
+    }
+}
+
+#[cfg(feature = "verif")]
+impl TransportService {
     /// Verification hook: per peer, primary (id, active) and secondary (id, active).
     #[allow(clippy::type_complexity)]
     pub(crate) fn verif_contexts(&self) -> Vec<(PeerId, (usize, bool), Option<(usize, bool)>)> {
